@@ -46,6 +46,7 @@ type crashCtl struct {
 	noWAL     bool
 	wantFiles bool // C22: also recover every clone read-only and record the recovered version's tables
 	disabled  bool
+	fmvlo, fmvhi int // C40: format major version bounds a recovered store must respect
 }
 
 func fileClass(path string) string {
@@ -313,6 +314,7 @@ func (c *crashCtl) probeLocked(at, cls string, dur bool) {
 		ev["choice"] = ch.name
 		ev["unsynced"] = len(items)
 		ev["dur"] = dur
+		ev["fmvlo"], ev["fmvhi"] = c.fmvlo, c.fmvhi
 		ev["vallowed"] = [][]int{}
 		evs = append(evs, ev)
 	}
